@@ -10,6 +10,7 @@ package main
 import (
 	"context"
 	"fmt"
+	"strings"
 	"sync"
 	"sync/atomic"
 	"time"
@@ -112,9 +113,80 @@ var cancelOps = map[string]struct {
 	"ThrottleTime": {"ThrottleTime", func() intOp { return ro.ThrottleTime[int](time.Millisecond) }},
 }
 
+// term=ctx: "cancelling the subscription context has the same effect on the context-aware sources": the library's own
+// asynchronous sources, alone and below a short chain, subscribed with a cancellable context that is then cancelled. The
+// stream ends (a terminal is delivered) and falls silent: nothing is delivered later. (Timer waits inside Subscribe: the
+// listed blocks-in-subscribe class; its reaction to the context is part of kind=timed.)
+var cancelSources = map[string]func() ro.Observable[int]{
+	"Interval": func() ro.Observable[int] {
+		return ro.Map(func(v int64) int { return int(v) })(ro.Interval(400 * time.Microsecond))
+	},
+	"IntervalWithInitial0": func() ro.Observable[int] {
+		return ro.Map(func(v int64) int { return int(v) })(ro.IntervalWithInitial(0, 400*time.Microsecond))
+	},
+	"IntervalWithInitial": func() ro.Observable[int] {
+		return ro.Map(func(v int64) int { return int(v) })(ro.IntervalWithInitial(300*time.Microsecond, 400*time.Microsecond))
+	},
+	"RangeWithInterval": func() ro.Observable[int] {
+		return ro.Map(func(v int64) int { return int(v) })(ro.RangeWithInterval(0, 100000, 400*time.Microsecond))
+	},
+	"IntervalChain": func() ro.Observable[int] {
+		return ro.Pipe2(ro.Interval(400*time.Microsecond), ro.Map(func(v int64) int { return int(v) }), ro.Filter(func(v int) bool { return v%2 == 0 }))
+	},
+}
+
+func runCancelSource(c *Case) string {
+	mk, ok := cancelSources[strings.TrimPrefix(c.get("op", "?"), "src:")]
+	if !ok {
+		return "res " + c.id + " unsupported"
+	}
+	setRecorder(nil)
+	var n, afterTerm int64
+	var done int32
+	ctx, cancel := context.WithCancel(ctxFromMarks([]int{7}))
+	defer cancel()
+	returned := make(chan ro.Subscription, 1)
+	go func() {
+		returned <- mk().SubscribeWithContext(ctx, ro.NewObserver(func(int) {
+			atomic.AddInt64(&n, 1)
+			if atomic.LoadInt32(&done) == 1 {
+				atomic.AddInt64(&afterTerm, 1)
+			}
+		}, func(error) { atomic.StoreInt32(&done, 1) }, func() { atomic.StoreInt32(&done, 1) }))
+	}()
+	var sub ro.Subscription
+	ret := 0
+	select {
+	case sub = <-returned:
+		ret = 1
+	case <-time.After(400 * time.Millisecond):
+	}
+	time.Sleep(2 * time.Millisecond)
+	cancel()
+	deadline := time.Now().Add(400 * time.Millisecond)
+	for atomic.LoadInt32(&done) == 0 && time.Now().Before(deadline) {
+		time.Sleep(200 * time.Microsecond)
+	}
+	ended := int(atomic.LoadInt32(&done))
+	// silence: no value is delivered during the next few periods
+	before := atomic.LoadInt64(&n)
+	time.Sleep(4 * time.Millisecond)
+	rel := 0
+	if ended == 1 && atomic.LoadInt64(&n) == before && atomic.LoadInt64(&afterTerm) == 0 {
+		rel = 1
+	}
+	if sub != nil {
+		sub.Unsubscribe()
+	}
+	return fmt.Sprintf("res %s ended=%d returned=%d released=%d", c.id, ended, ret, rel)
+}
+
 func runCancelCase(c *Case) string {
 	name := c.get("op", "?")
 	term := c.get("term", "unsub")
+	if term == "ctx" {
+		return runCancelSource(c)
+	}
 	var op intOp
 	if co, ok := cancelOps[name]; ok {
 		op = co.mk()
@@ -213,6 +285,9 @@ func genCancel(tier string, seed int64, only string) []*Case {
 	add := func(kv ...string) {
 		id++
 		cases = append(cases, newCase(id, append([]string{"kind", "cancel"}, kv...)...))
+	}
+	for name := range cancelSources {
+		add("op", "src:"+name, "row", "-", "term", "ctx")
 	}
 	for name, co := range cancelOps {
 		for _, term := range []string{"unsub", "take1", "unsub0"} {
